@@ -482,7 +482,7 @@ def judge(chk, c, evs):
                 return
             prevp = ([cur] + want)[-2]
             endp = want[-1]
-            ctrl = prevp if prevp != endp else None
+            ctrl = prevp        # (Curve::segment stores the point before the last one, also when the segment has no length)
             tan = unit((endp[0] - prevp[0], endp[1] - prevp[1]))
         elif kind == 'bezier':
             pts = [(ref[0] + g[0], ref[1] + g[1]) for g in sec['given']]
